@@ -569,6 +569,7 @@ mod e1 {
         let mut inflight: std::collections::HashMap<(usize, usize), (usize, H)> = Default::default();
         let mut contested = false;
         let mut labels = vec![];
+        let mut began_stopping: std::collections::HashSet<usize> = Default::default();
         for (pos, e) in tr.iter().enumerate() {
             match &e.ev {
                 Ev::OpStart { c, i } => match op_of(*c, *i) {
@@ -611,7 +612,9 @@ mod e1 {
                                         format!("spawn of actor {a} began while actor {h} held name {n}, yet it returned {res:?} instead of ActorAlreadyRegistered (#{pos})"),
                                     ));
                                 }
-                                H::Maybe(_) if !is_reg_err => holder[n] = H::Held(a),
+                                // (the actor may already have begun to stop — and released the name — before
+                                // its own spawn call returned: another client can reach it through its cell)
+                                H::Maybe(_) if !is_reg_err => holder[n] = if began_stopping.contains(&a) { H::Free } else { H::Held(a) },
                                 _ => {}
                             }
                             let registered = matches!(before, H::Free) || (matches!(before, H::Maybe(_)) && !is_reg_err);
@@ -667,6 +670,7 @@ mod e1 {
                     _ => {}
                 },
                 Ev::Status { a, st } if *st >= 5 => {
+                    began_stopping.insert(*a);
                     if let Some(n) = name_of(*a) {
                         if holder[n as usize] == H::Held(*a) || holder[n as usize] == H::Maybe(*a) {
                             holder[n as usize] = H::Free;
